@@ -7,7 +7,7 @@ import ArcSwapModel.Tie.LibSwap
 import ArcSwapModel.Tie.LibStore
 import ArcSwapModel.Tie.HybridCas
 import ArcSwapModel.Inv.Surplus
-import ArcSwapModel.Inv.Haz6
+import ArcSwapModel.Inv.HazD4
 
 /-!
 # C01 — no use-after-free (partial: containers and handles keep their value alive — global theorem;
@@ -26,10 +26,11 @@ value is alive: the slot is seen by every writer that replaces the value) is pro
 invariant for the fast slots (`Inv/Haz0 … Haz6`, `C01_confirmed_slot_protects_its_value`,
 `C01_borrowed_guard_alive_partial`): a fast slot that names a value, once its owner has confirmed
 it, has the value still in a container or ahead of it the walk of a thread that took the value out
-— along every execution in which containers are created on fresh cells and none is destroyed.  Not
-covered by that invariant: debts in the helping slot (the fallback path, correct only up to a wrap
-of the generation counter) and executions that destroy containers (exclusive access is the type
-system's business).  The per-step facts the invariant composes — each for every shared state, i.e.
+— along every execution in which containers are created on fresh cells; they may be consumed and
+dropped at any time (`Inv/Busy*`, `HazD1 … HazD4`: a container being destroyed is worked on by its
+destroyer alone — the harness's `busy` discipline, in Rust the by-value receiver).  Not covered by
+that invariant: debts in the helping slot (the fallback path, correct only up to a wrap of the
+generation counter).  The per-step facts the invariant composes — each for every shared state, i.e.
 for every behaviour of the other threads:
 
 1. **publish, then confirm**: a load returns a borrowed guard (one with a debt) only from the
@@ -296,25 +297,38 @@ theorem C01_walk_passes_no_slot_unseen (cfg : Cfg) (p c : Nat) (s : Shared) (l :
     (stepPP cfg p c s l b pp).2.2.1.ahead L n i ∨ pp = .slot n i :=
   ahead_step cfg p c s l b pp L hc n i hn hi hnode h
 
-/-- **the hazard invariant is inductive**: one step of any thread keeps it (the list may grow at the
-    front) -/
-theorem C01_hazard_invariant_step {N : Nat} {st : State} {L : List Nat} (h : HazAll N st L) (t : Nat) (b : Bool)
-    (htame : Tame N st t) : ∃ pre, HazAll N (microStep st t b).1 (pre ++ L) :=
-  h.step t b htame
+/-- **the hazard invariant is inductive**: one step of any thread below `T` whose next operation
+    uses registers and cells below `N` and creates a container on a fresh cell only keeps it (the
+    list may grow at the front); containers may be consumed and dropped -/
+theorem C01_hazard_invariant_step {N T : Nat} {st : State} {L : List Nat} (h : HazAllD N T st L) (t : Nat) (ht : t < T)
+    (b : Bool) (htame : Tame2 N st t) : ∃ pre, HazAllD N T (microStep st t b).1 (pre ++ L) :=
+  h.step t ht b htame
 
-/-- **a confirmed slot protects the value it names**: along every execution in which containers are
-    created on fresh cells only and none is destroyed — any number of threads, any programs, any
-    schedule — a fast slot that names `a`, and that its owner is not still in the middle of
-    confirming or taking back, has `a` still stored in a container, or some thread that took `a` out
-    of a container is walking the list for it and has this slot still ahead of it. -/
-theorem C01_confirmed_slot_protects_its_value (N : Nat) (cfg : Cfg) (progs : Nat → List (String × Op))
-    (sched : List (Nat × Bool)) (ht : TameRun N (State.initial cfg progs) sched) (n i a : Nat) (hi : i < slotCnt)
+/-- **the `busy` discipline is inductive**: a container being destroyed is worked on by its
+    destroyer alone and keeps its value until the destroyer's walk is over (in Rust: `into_inner`
+    and `Drop` take the container by value) -/
+theorem C01_busy_invariant_step {N T : Nat} {st : State} (h : BusyInv N T st) (hx : ∀ t, (st.th t).op.cxok)
+    (t : Nat) (ht : t < T) (b : Bool) (htame : Tame2 N st t) : BusyInv N T (microStep st t b).1 :=
+  h.step hx t ht b htame
+
+/-- **a confirmed slot protects the value it names**: along every execution of threads that use
+    registers and cells below `N` and create containers on fresh cells only — any number of
+    threads, any programs, any schedule; containers may be consumed and dropped — a fast slot that
+    names `a`, and that its owner is not still in the middle of confirming or taking back, has `a`
+    still stored in a container that nobody is destroying; or a thread that took `a` out of a
+    container, or is destroying the container that holds it, is walking the list and has this slot
+    still ahead of it; or it is the debt of the guard a destroyer loaded while helping (the
+    container it is destroying still holds `a`). -/
+theorem C01_confirmed_slot_protects_its_value (N T : Nat) (cfg : Cfg) (progs : Nat → List (String × Op))
+    (sched : List (Nat × Bool)) (ht : TameRun2 N T (State.initial cfg progs) sched) (n i a : Nat) (hi : i < slotCnt)
     (hs : ((run (State.initial cfg progs) sched).sh.nodes n).fast i = .ptr a)
     (hconf : ∀ o, ((run (State.initial cfg progs) sched).th o).loc.node = some n →
       ¬ Unc ((run (State.initial cfg progs) sched).th o).op.lp? a i) :
-    (∃ c, c < N ∧ (run (State.initial cfg progs) sched).sh.cells c = some a) ∨
-      ∃ w pp L, ((run (State.initial cfg progs) sched).th w).op.walk? = some (a, pp) ∧ pp.ahead L n i :=
-  borrowed_value_protected N cfg progs sched ht n i a hi hs hconf
+    (∃ c, c < N ∧ (run (State.initial cfg progs) sched).sh.cells c = some a ∧
+        (run (State.initial cfg progs) sched).ctaken c = false) ∨
+      (∃ w pp L, ((run (State.initial cfg progs) sched).th w).op.walkC? = some (a, pp) ∧ pp.ahead L n i) ∨
+      (∃ o, ((run (State.initial cfg progs) sched).th o).op.consHold n i a) :=
+  confirmed_slot_protected N T cfg progs sched ht n i a hi hs hconf
 
 /-- the value a thread is walking the list for is counted: the walker holds the reference it took
     out of the container until the walk is over (`swap`/`store`, `compare_and_swap`, `rcu`) -/
@@ -328,17 +342,13 @@ theorem C01_walked_value_alive (K N T : Nat) (hK : 0 < K) (cfg : Cfg) (progs : N
 /-- **C01 for a borrowed guard (partial).**  Thread `o` owns node `n` and is between two operations;
     fast slot `i` of `n` names `a` — a borrowed guard of `o`, taking no reference of its own.  Then
     `a` is alive (its count is positive and it has not been destroyed), whatever the other threads
-    do: along every execution that satisfies the assumptions of the ledger (`EnvRun0`), in which
-    containers are created on fresh cells only and none is destroyed (`TameRun`), and that has
-    raised no fault.
+    do — replace the value, consume or drop the container: along every execution that satisfies
+    the assumptions of the ledger (`EnvRun0`) and has raised no fault.
 
-    Full statement: the same for every guard, in every reachable state.  Missing: debts in the
-    helping slot (the fallback path; the protocol itself is correct only up to a wrap of the
-    generation counter during one stalled help), executions that destroy containers, and executions
-    with a successful hand-over of a replacement (the ledger's `NoEnv`). -/
+    Full statement: the same in every reachable state.  Missing: executions with a successful
+    hand-over of a replacement (the ledger's `NoEnv`), and that no fault is raised at all. -/
 theorem C01_borrowed_guard_alive_partial (K N T : Nat) (hK : 0 < K) (cfg : Cfg) (progs : Nat → List (String × Op))
     (sched : List (Nat × Bool)) (he : EnvRun0 K N T (State.initial cfg progs) sched)
-    (ht : TameRun N (State.initial cfg progs) sched)
     (hf : (run (State.initial cfg progs) sched).sh.fault = none) (a : Nat) (ha : a ≠ 0)
     (o n i : Nat) (hi : i < slotCnt)
     (hidle : ((run (State.initial cfg progs) sched).th o).op = .idle)
@@ -346,34 +356,67 @@ theorem C01_borrowed_guard_alive_partial (K N T : Nat) (hK : 0 < K) (cfg : Cfg) 
     (hs : ((run (State.initial cfg progs) sched).sh.nodes n).fast i = .ptr a) :
     1 ≤ ((run (State.initial cfg progs) sched).sh.heap a).cnt ∧
       ((run (State.initial cfg progs) sched).sh.heap a).live = true :=
-  borrowed_guard_of_resting_thread_alive K N T hK cfg progs sched he ht hf a ha o n i hi hidle hnode hs
+  resting_guard_alive_env K N T hK cfg progs sched he hf a ha o n i hi hidle hnode hs
 
 /-- the same for any confirmed slot, whoever its owner and whatever it is doing (a thread in the
     middle of another operation holds its earlier guards too) -/
 theorem C01_confirmed_slot_value_alive_partial (K N T : Nat) (hK : 0 < K) (cfg : Cfg) (progs : Nat → List (String × Op))
     (sched : List (Nat × Bool)) (he : EnvRun0 K N T (State.initial cfg progs) sched)
-    (ht : TameRun N (State.initial cfg progs) sched)
     (hf : (run (State.initial cfg progs) sched).sh.fault = none) (a : Nat) (ha : a ≠ 0)
     (n i : Nat) (hi : i < slotCnt) (hs : ((run (State.initial cfg progs) sched).sh.nodes n).fast i = .ptr a)
     (hconf : ∀ o, ((run (State.initial cfg progs) sched).th o).loc.node = some n →
       ¬ Unc ((run (State.initial cfg progs) sched).th o).op.lp? a i) :
     1 ≤ ((run (State.initial cfg progs) sched).sh.heap a).cnt ∧
       ((run (State.initial cfg progs) sched).sh.heap a).live = true :=
-  borrowed_value_alive K N T hK cfg progs sched he ht hf a ha n i hi hs hconf
+  confirmed_slot_value_alive K N T hK cfg progs sched he (TameRun2.of_env he) hf a ha n i hi hs hconf
+
+/-- **C01 for every guard (partial).**  The value of every guard in a register — with no debt, with
+    a debt that has been paid, with a debt the slot still shows (borrowed), even while its owner is
+    publishing the same value through the same slot again — has a positive count and has not been
+    destroyed, whatever any thread is doing, including consuming or dropping the container the
+    guard came from: along every execution that satisfies the assumptions of the ledger and has
+    raised no fault.  (A guard handed to the caller never has a debt in the helping slot: the
+    fallback path settles it before it returns.)
+
+    Full statement: the same in every reachable state.  Missing: executions with a successful
+    hand-over of a replacement (`NoEnv`), and that no fault is raised at all (the theorem is about
+    fault-free prefixes). -/
+theorem C01_guard_value_alive_partial (K N T : Nat) (hK : 0 < K) (cfg : Cfg) (progs : Nat → List (String × Op))
+    (sched : List (Nat × Bool)) (he : EnvRun0 K N T (State.initial cfg progs) sched)
+    (hf : (run (State.initial cfg progs) sched).sh.fault = none) (a : Nat) (ha : a ≠ 0)
+    (g : Nat) (hg : g < N) (gd : Guard) (hreg : (run (State.initial cfg progs) sched).sh.greg g = some gd)
+    (hp : gd.ptr = a) :
+    1 ≤ ((run (State.initial cfg progs) sched).sh.heap a).cnt ∧
+      ((run (State.initial cfg progs) sched).sh.heap a).live = true :=
+  guard_value_alive_env K N T hK cfg progs sched he hf a ha g hg gd hreg hp
+
+/-- … hence dereferencing a guard raises no use-after-free fault -/
+theorem C01_guard_deref_no_fault_partial (K N T : Nat) (hK : 0 < K) (cfg : Cfg) (progs : Nat → List (String × Op))
+    (sched : List (Nat × Bool)) (he : EnvRun0 K N T (State.initial cfg progs) sched)
+    (hf : (run (State.initial cfg progs) sched).sh.fault = none)
+    (t g : Nat) (hg : g < N) (b : Bool) (txt : String) (rest : List (String × Op))
+    (hidle : ((run (State.initial cfg progs) sched).th t).op = .idle)
+    (hprog : ((run (State.initial cfg progs) sched).th t).prog = (txt, .gderef g) :: rest) :
+    (microStep (run (State.initial cfg progs) sched) t b).1.sh.fault = none :=
+  gderef_no_fault_env K N T hK cfg progs sched he hf t g hg b txt rest hidle hprog
 
 /-- non-vacuity of the hazard theorems: the concrete execution `hazSched` of `hazEx` (Inv/Haz6) is
     tame and fault-free and ends with thread 0 resting on a borrowed guard of value 1 that is in no
-    container any more, thread 1 at the start of its walk for it -/
+    container any more, thread 1 at the start of its walk for it; `hazSchedD` of `hazExD`
+    (Inv/HazD4) ends with thread 0 resting on a borrowed guard of value 1 whose container thread 1
+    has begun to drop -/
 example : TameRun 4 hazEx hazSched ∧ ((run hazEx hazSched).th 0).op = .idle ∧
     ((run hazEx hazSched).sh.nodes 0).fast 0 = .ptr 1 ∧ (run hazEx hazSched).sh.cells 0 = some 2 :=
   ⟨tameRun_of_B (by decide +kernel), by decide +kernel, by decide +kernel, by decide +kernel⟩
+example : TameRun2 4 2 hazExD hazSchedD ∧ ((run hazExD hazSchedD).th 0).op = .idle ∧
+    ((run hazExD hazSchedD).sh.nodes 0).fast 0 = .ptr 1 ∧ (run hazExD hazSchedD).ctaken 0 = true :=
+  ⟨tameRun2_of_B (by decide +kernel), by decide +kernel, by decide +kernel, by decide +kernel⟩
 
 /-!
-What is left of C01 on the machine: a guard whose debt is in the *helping* slot (the fallback path:
-the hazard argument there goes through the control word and the generation, and holds only up to a
-wrap of the generation counter during one stalled help, as the crate's documentation says), and the
-composition of the hazard clause with executions that destroy containers or hand a replacement
-over.
+What is left of C01 on the machine: a guard whose debt is in the *helping* slot while its load is
+still inside the fallback (the hazard argument there goes through the control word and the
+generation, and holds only up to a wrap of the generation counter during one stalled help, as the
+crate's documentation says), and the composition with executions that hand a replacement over.
 -/
 
 end C01
